@@ -10,18 +10,27 @@ def run(rep: Report, repo: Repo, tier: str) -> None:
     rep.assume("ParseTreeWalker calls enter* callbacks in document order, parent before children",
                "the listener depends on the input only through the command name, argument count and the abstract state atoms",
                "ambiguity in cmake_file resolves to the lowest alternative")
-    protocol.rule_protocol_default(rep, repo, "C02-R1")
-    rule_consumption(rep, repo, "C02-R2")
-    misc_rules.rule_document_order(rep, repo, "C02-R3")
-    render.rule_kind_rendering(rep, repo, "C02-R4")
+    with rep.isolated():
+        protocol.rule_protocol_default(rep, repo, "C02-R1")
+    with rep.isolated():
+        rule_consumption(rep, repo, "C02-R2")
+    with rep.isolated():
+        misc_rules.rule_document_order(rep, repo, "C02-R3")
+    with rep.isolated():
+        render.rule_kind_rendering(rep, repo, "C02-R4")
     from . import bindings, writer_rules
-    bindings.rule_generic_binding(rep, repo, "C02-R6")
-    writer_rules.rule_values_verbatim(rep, repo, "C02-R7")
-    atn_rules.rule_file_grammar(rep, repo, "C02-R5")
-    _late_rules(rep, repo)
+    with rep.isolated():
+        bindings.rule_generic_binding(rep, repo, "C02-R6")
+    with rep.isolated():
+        writer_rules.rule_values_verbatim(rep, repo, "C02-R7")
+    with rep.isolated():
+        atn_rules.rule_file_grammar(rep, repo, "C02-R5")
+    with rep.isolated():
+        _late_rules(rep, repo)
     if tier == "thorough":
         from . import trace_rules
-        trace_rules.rule_entry_traces(rep, repo, "C02-I")
+        with rep.isolated():
+            trace_rules.rule_entry_traces(rep, repo, "C02-I")
 
 
 def rule_consumption(rep: Report, repo: Repo, rule: str) -> None:
@@ -57,3 +66,4 @@ def _late_rules(rep, repo):
     bindings.rule_test_bindings(rep, repo, "C02-R8", "C02-R8f")        # "arguments as written and in order" for the CTest kind
     render.rule_render_total(rep, repo, "C02-R9")                       # members appear: rendering cannot raise
     protocol.rule_rejections(rep, repo, "C02-R10")
+    protocol.rule_accepted_arities(rep, repo, "C02-R11")
